@@ -565,6 +565,72 @@ func checkC19(c *Ctx) Meta {
 		}
 	}
 
+	// ---- EXIST: lookups return a bucket only when its index entry was read successfully
+	c.Rule("C19-EXIST", "bucket lookups (FetchBucket, TopLevelBucket, Bucket of both transaction kinds) return a bucket only on the success edge of the read of its index entry: a bucket that was never created, was rolled back or was deleted does not resolve", 6)
+	for _, name := range []string{"(*LDBTransaction).FetchBucket", "(*LDBTransaction).TopLevelBucket", "(*LDBBucket).Bucket", "(*LDBReadTransaction).FetchBucket", "(*LDBReadTransaction).TopLevelBucket", "(*LDBReadBucket).Bucket"} {
+		f := c.MustFn("C19-EXIST", "poc/wallet/db/ldb", name)
+		if f == nil {
+			continue
+		}
+		key := name + ":exists-before-resolve"
+		var gets []*ssa.Call
+		allInstrs(f, func(in ssa.Instruction) {
+			if op, ok := isLevelDBStoreCall(in); ok && strings.HasSuffix(op, ").Get") {
+				gets = append(gets, in.(*ssa.Call))
+			}
+		})
+		if len(gets) != 1 {
+			c.Bad("C19-EXIST", key, c.Pos(f.Pos()), "reason=anchor-missing: index read in lookup")
+			continue
+		}
+		r := reach(f, nil, errorEdgeCut(f, gets[0], false), nil)
+		bad := len(errResults(gets[0])) == 0 || len(nilTestsOf(f, errResults(gets[0])[0])) == 0
+		for _, ret := range returnsOf(f) {
+			if isNilConst(strip(ret.Results[0])) {
+				continue
+			}
+			if r(ret) {
+				bad = true
+			}
+		}
+		if bad {
+			c.Bad("C19-EXIST", key, c.Pos(gets[0].Pos()), "a bucket handle is returned on a path where the read of its index entry did not succeed (e.g. not found): a rolled-back or deleted bucket resolves to a live writable bucket")
+		} else {
+			c.OK("C19-EXIST", key, c.Pos(gets[0].Pos()), "non-nil bucket only behind err == nil of the index read")
+		}
+	}
+	// transaction-level siblings
+	for _, m := range []string{"FetchBucket", "TopLevelBucket", "BucketNames"} {
+		a := c.Fn("poc/wallet/db/ldb", "(*LDBTransaction)."+m)
+		b := c.Fn("poc/wallet/db/ldb", "(*LDBReadTransaction)."+m)
+		if a == nil || b == nil {
+			c.Bad("C19-SIBLING", "tx:"+m, "", "reason=anchor-missing")
+			continue
+		}
+		norm := func(in []string) []string {
+			var out []string
+			for _, x := range in {
+				x = strings.ReplaceAll(x, "LDBReadBucket", "B")
+				x = strings.ReplaceAll(x, "LDBBucket", "B")
+				x = strings.ReplaceAll(x, "leveldb.Transaction)", "leveldb.H)")
+				x = strings.ReplaceAll(x, "leveldb.DB)", "leveldb.H)")
+				x = strings.ReplaceAll(x, "LDBReadTransaction", "T")
+				x = strings.ReplaceAll(x, "LDBTransaction", "T")
+				if x == "field tx" || x == "field tr" || x == "field ldb" {
+					continue
+				}
+				out = append(out, x)
+			}
+			return out
+		}
+		sa, sb := norm(normSeq(a)), norm(normSeq(b))
+		if strings.Join(sa, "\n") == strings.Join(sb, "\n") {
+			c.OK("C19-SIBLING", "tx:"+m, c.Pos(a.Pos()), fmt.Sprintf("%d normalised operations agree", len(sa)))
+		} else {
+			c.Bad("C19-SIBLING", "tx:"+m, c.Pos(a.Pos()), "write and read transactions disagree on "+m+" (first difference: "+firstDiff(sa, sb)+"): they would disagree on which buckets exist")
+		}
+	}
+
 	checkUpdateWrapper(c, "C19-UPDATE")
 	_ = types.Typ
 	_ = token.ADD
